@@ -69,3 +69,26 @@ package egress
 //verif:ensures[limits-positive] effective.Enabled ==> effective.Timeout > 0 && effective.MaxResponseBytes > 0
 //verif:ensures[secrets-intersected] effective.Enabled && (len(ceiling.Allowlist) > 0 || len(ceiling.SecretRefs) > 0) ==> called("intersectRefs") && effective.SecretRefs == result_of("intersectRefs", 0)
 //verif:call[intersect-both] intersectRefs requires arg0 == perProcessor.SecretRefs && arg1 == ceiling.SecretRefs
+
+// The dial-time hook admits an address only if it parses, and is either not
+// refused by the classifier or is an exact (IP, port) carve-out.
+//verif:func (*Service).dialControl(s, network, address, conn) (err)
+//verif:ensures[admit-only-classified] err == nil ==> succeeded("net.SplitHostPort") && called("Refuse") && (!result_of("Refuse", 0) || called("(Policy).matchesCarveOut") && result_of("(Policy).matchesCarveOut", 0))
+//verif:call[classify-the-parsed-ip] Refuse requires arg0 == result_of("net.ParseIP", 0) && !isnil(arg0)
+//verif:call[carve-out-is-ip-and-port] (Policy).matchesCarveOut requires arg1 == result_of("net.ParseIP", 0) && arg2 == result_of("net.SplitHostPort", 1) && result_of("Refuse", 0)
+
+// A carve-out matches only an IP-literal entry with the same port AND an equal IP.
+//verif:func (Policy).matchesCarveOut(p, ip, port) (r)
+//verif:ensures[pair-match] r ==> called("(AllowEntry).IsIP") && result_of("(AllowEntry).IsIP", 0) && called("net.(IP).Equal") && result_of("net.(IP).Equal", 0)
+//verif:call[ip-compared-only-for-same-port-ip-entries] net.(IP).Equal requires arg1 == ip && result_of("(AllowEntry).IsIP", 0) && e.Port == port
+
+// Every resolved candidate is classified before it is dialled; a dial is issued
+// only for a candidate that is not refused or is an exact (IP, port) carve-out,
+// and the dialled address is that candidate's own IP and the requested port.
+//verif:closure of (*Service).dialContext calling net.(*Dialer).DialContext (s, base, ctx, network, address) (conn, err)
+//verif:call[classify-each-candidate] Refuse requires arg0 == ip$2
+//verif:call[carve-out-pair] (Policy).matchesCarveOut requires arg1 == ip$2 && arg2 == port && result_of("Refuse", 0) && since("net.(*Dialer).DialContext", "Refuse") == 0
+//verif:call[dial-only-admissible-candidate] net.(*Dialer).DialContext requires since("Refuse", "net.(IP).String") == 0 && since("net.(*Dialer).DialContext", "Refuse") == 0 && called("Refuse") && (!result_of("Refuse", 0) || since("(Policy).matchesCarveOut", "Refuse") == 1 && result_of("(Policy).matchesCarveOut", 0)) && arg3 == result_of("net.JoinHostPort", 0)
+//verif:call[dialled-address-is-the-candidate] net.JoinHostPort requires arg0 == result_of("net.(IP).String", 0) && arg1 == port && since("Refuse", "net.(IP).String") == 0
+//verif:call[string-of-the-candidate] net.(IP).String requires arg0 == ip$2 && since("net.(IP).String", "Refuse") == 0
+//verif:loop 0 invariant true
